@@ -290,6 +290,12 @@ def rule_cache_protocol(F, rep, rule="cache-protocol", keys="exact"):
                 wk.append(T.agg("tuple", None, 0, None, [T.proj(r_, ("f", 0, "start")), T.proj(r_, ("f", 1, "end"))]))
         if len(ins_) == 3 and norm(ins_[1]) == "usize" and norm(ins_[2]) == "usize" and [an.names.get(2), an.names.get(3)] == ["start", "end"]:
             wk.append(T.agg("tuple", None, 0, None, [T.param(2), T.param(3)]))
+        # a cache keyed by the request Range itself (HashMap<Range<usize>, _>): the key is the function's Range parameter, by value or
+        # through a reference - the same (start, end) pair under Range's derived Eq / Hash
+        for i_, ty_ in enumerate(ins_):
+            if "ops::Range<usize>" in norm(ty_):
+                wk.append(T.param(i_ + 1))
+                wk.append(T.deref(T.param(i_ + 1)))
         key_terms.append(want_key if any(k is w_ for w_ in wk) else k)
         if keys == "exact":
             rep.require(any(k is w_ for w_ in wk), rule, "key@%s.%s" % (fn["qual"].split("::")[-1], name), cs.where(), "key = (range.start, range.end)",
